@@ -202,11 +202,14 @@ pub fn property() -> Property {
     regime::add(&mut checks);
     Property {
         id: "C10",
-        rule: "model-view/projection pairs: structured (rational rigid transform x perspective/orthographic/frustum) and arbitrary invertible matrices with small rational (floats: integer) entries, singular products discarded; viewports at arbitrary offsets with w != h, sometimes negative height; points with clip w != 0; picking centres inside and outside the viewport, anisotropic sizes; non-trivial = viewport offset != 0 and w != h and clip w != 1 / centre != viewport centre; distinct = distinct consumed tape prefix",
+        rule: "model-view/projection pairs: structured (rational rigid transform x perspective/orthographic/frustum) and arbitrary invertible matrices with small rational (floats: integer) entries, singular products discarded; viewports at arbitrary offsets with w != h, sometimes negative height; points with clip w != 0; picking centres inside and outside the viewport, anisotropic sizes; non-trivial = viewport offset != 0 and w != h and clip w != 1 / centre != viewport centre; distinct = distinct consumed tape prefix. Regime checks (scaled-*, f32 and f64): an exact dyadic unit-frame case (modelview: signed permutation x 2^g / rotation rounded to 2^-8 / general affine / full 4x4; projection: perspective or frustum with dyadic near and far up to far/near 2^16, orthographic, ordinary upper part with bottom row (0,0,c,1) (0,0,c,0) (0,0,0,d) (0,0,c,d) (a,0,0,1) (a,b,c,1) (a,b,c,d), arbitrary integers; viewports ordinary / offsets up to 2^30 / sizes down to 2^-30 (f32) 2^-60 (f64) / sizes up to 2^32 / negative width or height; points generic or within 2^-12 of the eye plane; window points inside, outside, depth in, on the ends of and outside [0,1]) handed to vek with modelview x 2^a, projection x 2^b, world unit x 2^j (projection: a, b, j stratified over every exponent for which the inputs are representable and eye / clip space stay finite, half of the scaled cases aimed at a subnormal clip w; unprojection: a and b anywhere in the normal range with every entry of the scaled product and of its inverse within 2^+-26 (f32) / 2^+-240 (f64)); picking: viewport, centre, size x 2^k over the whole range down to subnormal sizes, sizes 2^-20 of the viewport and huge, centres far outside; non-trivial there = some exponent != 0, clip w != 1 and the derived bound below 1/64 of the viewport size / depth range / point magnitude",
         assumptions: &[
             "rustc and the proptest runner/shrinker are trusted",
             "oracle: reference projection / unprojection on plain arrays (vkit::refmath matvec, adjugate inverse)",
             "float round trips: tolerance scaled by the conditioning |M| |inv M| of proj*modelview and by 1/|clip w|; matrices with |det| < 0.5 (unstructured) or |clip w| < 0.05 are discarded",
+            "regime checks: the oracle is the exact (Rat) evaluation of the unscaled dyadic case; scaling a matrix of the pair by a power of two does not change the projective map, a change of the world unit scales unprojected points exactly; tolerances are per-case forward error bounds: 8 eps sum|terms| for clip = P (MV (p,1)) plus 7 * 2^(minexp-1) per dot product whose result may be subnormal, propagated through the divide and the viewport map with a safety factor 4 (clip space taken as exact when every term and partial sum is representable at the scaled exponents); for the unprojection 8 eps (perm|minor| + |inv| perm|M|)/|det| for any cofactor-type 4x4 inverse plus the effect of the rounding of P*MV and of the window coordinates",
+            "regime checks, excluded as ill-conditioned for any implementation: clip w with fewer than three significant bits left after underflow (error bound of w > |w|/8: the call is still made, nothing is asserted about its value); eye or clip coordinates that would overflow; unprojections whose homogeneous w is below 8x its error bound or exactly 0 (point at infinity); for the unprojection, scalings that take an entry of P*MV or of its inverse outside 2^+-26 (f32) / 2^+-240 (f64), where a determinant of four factors leaves the normal range - in particular a subnormal w of the unprojected point is not reachable",
+            "regime checks: off-diagonal entries of the picking matrix are only required to vanish within 4 eps of the diagonal entry of their row; window lengths in the subnormal range carry no extra tolerance (sums of floats have no underflow error, the quotients are of ordinary magnitude)",
         ],
         checks,
         max_discard_frac: 0.3,
